@@ -157,6 +157,9 @@ def canonicalise(dicts, ref):
                 if "vars" in x and isinstance(x["vars"], list) and engine.norm(x.get("adt") or "") in set(k for k, _ in var_alias.values()):
                     x["vars"] = [[d0, var_alias[n][1] if n in var_alias and var_alias[n][0] == engine.norm(x["adt"]) else n] for d0, n in x["vars"]]
                 if "n" in x and "fields" in x and x["n"] in var_alias: x["n"] = var_alias[x["n"]][1]
+                if isinstance(x.get("pr"), list):        # names mentioned by a promoted constant: "<enum path>::<variant>"
+                    x["pr"] = ["%s::%s" % (var_alias[n.rsplit("::", 1)[-1]][0], var_alias[n.rsplit("::", 1)[-1]][1])
+                               if isinstance(n, str) and "::" in n and n.rsplit("::", 1)[-1] in var_alias and engine.norm(n.rsplit("::", 1)[0]) == var_alias[n.rsplit("::", 1)[-1]][0] else n for n in x["pr"]]
                 for v in x.values():
                     if isinstance(v, (dict, list)): walkv(v)
             elif isinstance(x, list):
